@@ -104,10 +104,15 @@ def run_bundles(st, res, bundles, pid, what="component", check_model=True, fmt="
                 elif g["ok"]["anon"] != r["anon_after"]:
                     res.corr_breaks.append({"name": "Comp.anon-counter", "input": extra, "model": g["ok"]["anon"], "impl": r["anon_after"]})
             elif ml is not None:
+                if r.get("exc") in ("RecursionError", "MemoryError"):
+                    # a resource limit of the interpreter (pickling the object graph of a very large program), not a verdict on
+                    # the program: the model has no such limit; counted, not compared
+                    res.count("impl:resource-limit(%s, not compared)" % r.get("exc"))
+                    continue
                 res.corr_breaks.append({"name": "Comp/Sys.compile(accept)", "input": extra, "model": "accepts", "impl": r.get("exc")})
         elif kind == "src":
             src_d[tag] = g
-            if must_accept and not r["ok"] and "ok" in g:
+            if must_accept and not r["ok"] and "ok" in g and r.get("exc") not in ("RecursionError", "MemoryError"):
                 res.violations.append({"what": "the compiler rejects a program that is well formed according to the specification "
                                                "(imports resolve, ports and lengths match): %s %s" % (r.get("exc"), r.get("stderr", "")[-300:]),
                                        "input": extra, "sig": pid + ":rejects-wellformed",
